@@ -8,6 +8,7 @@ package c15
 
 import (
 	"bytes"
+	"encoding/json"
 	"fmt"
 	"io"
 	"math"
@@ -19,7 +20,7 @@ import (
 )
 
 type meshCase struct {
-	Verts     [][3]float64 `json:"verts"`
+	Verts     []vec3       `json:"verts"`
 	Faces     [][3]int     `json:"faces"`
 	API       string       `json:"api,omitempty"`
 	Chunk     int          `json:"chunk,omitempty"`      // reader hands out at most this many bytes per Read (0: all)
@@ -29,6 +30,34 @@ type meshCase struct {
 }
 
 const maxCoord = 3e38
+
+// vec3 / vec2 are coordinate tuples whose JSON form keeps the sign of zero through tools
+// that read the integer numeral "-0" as 0 (the driver re-serialises records with Python):
+// negative zero is written "-0.0".
+type vec3 [3]float64
+type vec2 [2]float64
+
+func (v vec3) MarshalJSON() ([]byte, error) { return marshalFloats(v[:]) }
+func (v vec2) MarshalJSON() ([]byte, error) { return marshalFloats(v[:]) }
+
+func marshalFloats(xs []float64) ([]byte, error) {
+	b := []byte{'['}
+	for i, x := range xs {
+		if i > 0 {
+			b = append(b, ',')
+		}
+		if x == 0 && math.Signbit(x) {
+			b = append(b, "-0.0"...)
+			continue
+		}
+		j, err := json.Marshal(x)
+		if err != nil {
+			return nil, err
+		}
+		b = append(b, j...)
+	}
+	return append(b, ']'), nil
+}
 
 var negZero = math.Copysign(0, -1)
 
@@ -40,6 +69,12 @@ func clampCoord(x float64) float64 {
 		return -maxCoord
 	}
 	return x
+}
+
+// oneIn is true with probability of roughly 1/n (rapid's integer ranges favour their
+// ends, so the rare outcome is a middle value; shrinking moves away from it).
+func oneIn(t *rapid.T, n int, label string) bool {
+	return rapid.IntRange(0, n-1).Draw(t, label) == n/2
 }
 
 func sign(t *rapid.T, label string) float64 {
@@ -95,7 +130,7 @@ func genCoord(t *rapid.T, label string) float64 {
 	}
 }
 
-func genVert(t *rapid.T, pool [][3]float64, label string) [3]float64 {
+func genVert(t *rapid.T, pool []vec3, label string) vec3 {
 	if len(pool) > 0 {
 		switch rapid.IntRange(0, 9).Draw(t, label+".dup") {
 		case 0: // exact duplicate of an earlier vertex (a second pool entry with the same coordinates)
@@ -120,14 +155,17 @@ func genVert(t *rapid.T, pool [][3]float64, label string) [3]float64 {
 			return p
 		}
 	}
-	return [3]float64{genCoord(t, label+".x"), genCoord(t, label+".y"), genCoord(t, label+".z")}
+	return vec3{genCoord(t, label+".x"), genCoord(t, label+".y"), genCoord(t, label+".z")}
 }
 
 // genMesh draws a mesh; big allows up to ~130 faces (crosses the 512-byte sniffing
 // chunk of the STL reader and the 4096-byte bufio buffers).
 func genMesh(t *rapid.T, big bool) meshCase {
 	var c meshCase
-	nv := rapid.IntRange(0, 9).Draw(t, "nverts")
+	nv := rapid.IntRange(1, 9).Draw(t, "nverts")
+	if oneIn(t, 25, "novertices") {
+		nv = 0
+	}
 	for i := 0; i < nv; i++ {
 		c.Verts = append(c.Verts, genVert(t, c.Verts, fmt.Sprintf("v%d", i)))
 	}
@@ -135,12 +173,12 @@ func genMesh(t *rapid.T, big bool) meshCase {
 		return c
 	}
 	nf := 0
-	switch k := rapid.IntRange(0, 11).Draw(t, "size"); {
-	case k == 0:
+	switch k := rapid.IntRange(0, 23).Draw(t, "size"); {
+	case k == 12: // (rapid favours the ends of a range: rare classes sit in the middle)
 		nf = 0
-	case k == 1:
+	case k == 13 || k == 14:
 		nf = 1
-	case k == 2 && big:
+	case k >= 15 && k <= 18 && big:
 		nf = rapid.IntRange(9, 130).Draw(t, "nfaces")
 	default:
 		nf = rapid.IntRange(2, 12).Draw(t, "nfaces")
@@ -176,7 +214,7 @@ func genMesh(t *rapid.T, big bool) meshCase {
 func (c meshCase) valid() error {
 	for _, v := range c.Verts {
 		for _, x := range v {
-			if math.IsNaN(x) || math.Abs(x) > maxCoord {
+			if math.IsNaN(x) || math.Abs(x) > math.MaxFloat32 { // generated values stay <= 3e38; their float32 roundings may exceed that slightly
 				return fmt.Errorf("%w: coordinate %g outside the formats' range", kit.ErrInfra, x)
 			}
 		}
@@ -220,7 +258,7 @@ func (c meshCase) label(o *kit.Obs) {
 	}
 	used := map[int]int{}
 	var negz, huge, sub, nonrep, degenerate, collide, dupCoord bool
-	seen := map[[3]float64]int{}
+	seen := map[vec3]int{}
 	seen32 := map[[3]float32]int{}
 	for _, f := range c.Faces {
 		if f[0] == f[1] || f[1] == f[2] || f[0] == f[2] {
@@ -329,13 +367,13 @@ func edgeMeshes() []meshCase {
 	tri := [][3]int{{0, 1, 2}}
 	return []meshCase{
 		{}, // empty
-		{Verts: [][3]float64{{0, 0, 0}, {1, 0, 0}, {0, 1, 0}}, Faces: tri},
-		{Verts: [][3]float64{{0, 0, 0}, {1, 0, 0}, {0, 1, 0}}, Faces: [][3]int{{0, 1, 2}, {0, 2, 1}, {0, 1, 2}}},                        // same face thrice, both orientations
-		{Verts: [][3]float64{{negZero, 0, negZero}, {1, negZero, 0}, {0, 1, 0}, {0, 0, 0}}, Faces: [][3]int{{0, 1, 2}, {3, 2, 1}}},    // -0 and +0 versions of a vertex
-		{Verts: [][3]float64{{3e38, -3e38, 3e38}, {-3e38, 3e38, 1e38}, {1e-45, -1e-45, 1e-40}}, Faces: tri},                             // huge and subnormal
-		{Verts: [][3]float64{{0.1, 1.0 / 3, 16777217}, {7.006492321624085e-46, 7.1e-46, 1e-60}, {1 + 1.0/(1<<24), 2, 3}}, Faces: tri}, // ties, underflow
-		{Verts: [][3]float64{{0.1, 0.2, 0.3}, {r32(0.1), r32(0.2), r32(0.3)}, {1, 1, 1}, {2, 0, 0}}, Faces: [][3]int{{0, 2, 3}, {1, 3, 2}}}, // collide after rounding
-		{Verts: [][3]float64{{1, 2, 3}, {1, 2, 3}, {4, 5, 6}, {7, 8, 9}}, Faces: [][3]int{{0, 2, 3}, {1, 3, 2}, {0, 0, 2}, {1, 1, 1}}},    // duplicated pool entries, degenerate faces
+		{Verts: []vec3{{0, 0, 0}, {1, 0, 0}, {0, 1, 0}}, Faces: tri},
+		{Verts: []vec3{{0, 0, 0}, {1, 0, 0}, {0, 1, 0}}, Faces: [][3]int{{0, 1, 2}, {0, 2, 1}, {0, 1, 2}}},                        // same face thrice, both orientations
+		{Verts: []vec3{{negZero, 0, negZero}, {1, negZero, 0}, {0, 1, 0}, {0, 0, 0}}, Faces: [][3]int{{0, 1, 2}, {3, 2, 1}}},    // -0 and +0 versions of a vertex
+		{Verts: []vec3{{3e38, -3e38, 3e38}, {-3e38, 3e38, 1e38}, {1e-45, -1e-45, 1e-40}}, Faces: tri},                             // huge and subnormal
+		{Verts: []vec3{{0.1, 1.0 / 3, 16777217}, {7.006492321624085e-46, 7.1e-46, 1e-60}, {1 + 1.0/(1<<24), 2, 3}}, Faces: tri}, // ties, underflow
+		{Verts: []vec3{{0.1, 0.2, 0.3}, {r32(0.1), r32(0.2), r32(0.3)}, {1, 1, 1}, {2, 0, 0}}, Faces: [][3]int{{0, 2, 3}, {1, 3, 2}}}, // collide after rounding
+		{Verts: []vec3{{1, 2, 3}, {1, 2, 3}, {4, 5, 6}, {7, 8, 9}}, Faces: [][3]int{{0, 2, 3}, {1, 3, 2}, {0, 0, 2}, {1, 1, 1}}},    // duplicated pool entries, degenerate faces
 	}
 }
 
